@@ -141,6 +141,20 @@ theorem endK_good (s : Svc) (g : Good s) (k d : Nat) (h : s.futs k = .alive d) :
       have := g.parked hr
       omega
 
+theorem callT_good (s : Svc) (g : Good s) (tmo now : Nat) : Good (s.callT tmo now) := by
+  refine ⟨?_, ?_, ?_⟩
+  · simp only [Svc.callT, Svc.inProgress, aliveBelow, upd_same, ucInc_eq,
+      aliveBelow_upd_ge s.futs s.next _ s.next (Nat.le_refl _)]
+    have := g.count_eq
+    simp only [Svc.inProgress] at this
+    simp [FutSt.isAlive, this]
+  · intro k hk
+    simp only [Svc.callT] at hk ⊢
+    have : k ≠ s.next := by omega
+    simp [upd_other _ _ _ _ this, g.fresh k (by omega)]
+  · simp only [Svc.callT, ucInc_eq]
+    intro hr; have := g.parked hr; omega
+
 theorem good_step (s : Svc) (g : Good s) (op : Op) : Good (s.step op) := by
   cases op with
   | ready =>
@@ -150,19 +164,8 @@ theorem good_step (s : Svc) (g : Good s) (op : Op) : Good (s.step op) := by
     split at hr
     · rename_i hlt; have := g.parked hr; omega
     · rename_i hlt; omega
-  | call now =>
-    refine ⟨?_, ?_, ?_⟩
-    · simp only [Svc.step, Svc.call, Svc.inProgress, aliveBelow, upd_same, ucInc_eq,
-        aliveBelow_upd_ge s.futs s.next _ s.next (Nat.le_refl _)]
-      have := g.count_eq
-      simp only [Svc.inProgress] at this
-      simp [FutSt.isAlive, this]
-    · intro k hk
-      simp only [Svc.step, Svc.call] at hk ⊢
-      have : k ≠ s.next := by omega
-      simp [upd_other _ _ _ _ this, g.fresh k (by omega)]
-    · simp only [Svc.step, Svc.call, ucInc_eq]
-      intro hr; have := g.parked hr; omega
+  | call now => exact callT_good s g s.tmo now
+  | callT tmo now => exact callT_good s g tmo now
   | poll k now hs =>
     simp only [Svc.step, Svc.pollK]
     split
@@ -191,6 +194,7 @@ theorem step_cap (s : Svc) (op : Op) : (s.step op).cap = s.cap := by
   cases op with
   | ready => rfl
   | call now => rfl
+  | callT tmo now => rfl
   | poll k now hs =>
     simp only [Svc.step, Svc.pollK]
     split
@@ -214,7 +218,8 @@ theorem step_count_le (s : Svc) (op : Op) (h : s.count ≤ s.cap) (hc : s.contra
   rw [step_cap]
   cases op with
   | ready => exact h
-  | call now => simp only [Svc.step, Svc.call, ucInc_eq]; simp only [Svc.contractOk] at hc; omega
+  | call now => simp only [Svc.step, Svc.call, Svc.callT, ucInc_eq]; simp only [Svc.contractOk] at hc; omega
+  | callT tmo now => simp only [Svc.step, Svc.callT, ucInc_eq]; simp only [Svc.contractOk] at hc; omega
   | poll k now hs =>
     simp only [Svc.step, Svc.pollK]
     split
